@@ -18,7 +18,9 @@ Verdict(e) ==
       sh == IF Has(e, "short") THEN e.short ELSE Shortest(c)
       gr == IF Has(e, "greedy") THEN e.greedy ELSE GreedyShortest(c)
       dv == IF e.res = "seq" THEN gr = Len(e.w) ELSE gr = Impossible IN
-  IF e.res = "seq"
+  IF \E k \in 1..Len(e.pats) : ~EndOK(e.pats[k], TRUE)
+  THEN [c |-> "OutOfDomain", dev |-> FALSE, k |-> 0]      \* a '$' followed by something mandatory: not judged
+  ELSE IF e.res = "seq"
   THEN IF ~Embeds(e.w, e.req, e.limit)       THEN [c |-> "NotRequiredPlusInsertions", dev |-> FALSE, k |-> 0]
        ELSE IF ~MatchesAll(e.w, e.pats)      THEN [c |-> "DoesNotMatchPattern", dev |-> FALSE, k |-> FirstUnmatched(e.w, e.pats)]
        ELSE IF sh = Impossible \/ Len(e.w) < sh THEN [c |-> "SpecFoundNothingThatShort", dev |-> FALSE, k |-> sh]
@@ -35,7 +37,7 @@ TraceNext ==
   /\ LET e == Log[l]
          v == Verdict(e) IN
      bad' = IF v.c = "ok" THEN bad
-            ELSE Append(bad, [tid |-> e.tid, line |-> l, clause |-> v.c, alarm |-> TRUE, dev |-> v.dev, k |-> v.k])
+            ELSE Append(bad, [tid |-> e.tid, line |-> l, clause |-> v.c, alarm |-> v.c # "OutOfDomain", dev |-> v.dev, k |-> v.k])
 
 TraceSpec == TraceInit /\ [][TraceNext]_tvars
 
